@@ -281,6 +281,9 @@ static void dump_state(fsg_search_t *fs, const char *what, int entries)
     }
     printf("S %s %d %d %d %d\n", what, fs->frame, fsg_history_n_entries(fs->history),
            fs->pnode_active_next ? 1 : 0, pending);
+    /* the scores the pruning of the last frame used (fsg_search_hmm_prune_prop): best score of the frame and the
+     * effective beams; judged by the driver after a step only (score guard of a word exit, Props/C01Later.lean) */
+    printf("B %d %d %d %d\n", (int)fs->bestscore, (int)fs->beam, (int)fs->pbeam, (int)fs->wbeam);
     printf("A");
     for (gn = fs->pnode_active; gn; gn = gnode_next(gn)) printf(" %d", pn_id((fsg_pnode_t *)gnode_ptr(gn)));
     printf("\n");
